@@ -833,11 +833,12 @@ def strParseFloat (s : String) (sp : Span) : M Val :=
   | .syntaxErr => strconvErr "ParseFloat" s "invalid syntax" sp
   | .unmodelled => throwCtl (.unsupported "parse_float outside the decided class")
 
-/-! `parse_json`: `json.Unmarshal` into `interface{}` followed by `UnmarshalValue`. Modelled for valid
+/-! `parse_json`: a `json.Decoder` with `UseNumber` into `interface{}` followed by `UnmarshalValue`. Modelled for valid
 documents of the decided class (numbers without exponent that `jsonNumber?` decides, strings without
 surrogate escapes); everything else — syntax errors with their `encoding/json` texts included — is
 answered `unsupported`. JSON objects become objects (a repeated key keeps its last value), `null`
-becomes `none`, a whole number becomes an int. -/
+becomes `none`, a number spelled as an integer which fits an int becomes that int, every other number a
+float (J1). -/
 
 def jsonUnmodelled {α} : M α := throwCtl (.unsupported "parse_json outside the decided class")
 
